@@ -251,6 +251,161 @@ def type_annotation_tables(cr, fns):
 
 
 
+def split_top(text):
+    """split at the commas that stand outside every bracket; empty pieces dropped"""
+    out, depth, cur = [], 0, ""
+    for ch in text:
+        if ch in "([{":
+            depth += 1
+        elif ch in ")]}":
+            depth -= 1
+        if ch == "," and depth == 0:
+            out.append(cur.strip())
+            cur = ""
+        else:
+            cur += ch
+    out.append(cur.strip())
+    return [x for x in out if x]
+
+
+def constant_value_table(cr, pool_src, consts_src):
+    """ConstantValue: the arm of read_field, get_constant_value, the arms of as_constant_value -> [(pool tag, is string, variant)]"""
+    ncr = norm(cr)
+    arm = "name if name == attribute::CONSTANT_VALUE => { let constant_value = pool.get_constant_value(reader.read_u16()?)?; field_visitor.visit_constant_value(constant_value)?; }"
+    if ncr.count(arm) != 1 or ncr.count("name if name == attribute::CONSTANT_VALUE =>") != 1:
+        raise Fail("the ConstantValue arm has a shape the translator does not know (expected once: %s)" % arm)
+    np = norm(pool_src)
+    if "pub(crate) fn get_constant_value(&self, index: u16) -> Result<ConstantValue> { self.get(index)?.as_constant_value(self).pool_context(index) }" not in np:
+        raise Fail("pool.rs: fn get_constant_value has another body than `self.get(index)?.as_constant_value(self).pool_context(index)`")
+    m = re.search(r"fn as_constant_value\(&self, pool: &PoolRead\) -> Result<ConstantValue> \{", pool_src)
+    if not m:
+        raise Fail("pool.rs: no fn as_constant_value(&self, pool: &PoolRead) -> Result<ConstantValue>")
+    b = pool_src.index("{", m.end() - 1)
+    body = norm(pool_src[b + 1:match_close(pool_src, b)])
+    if not body.startswith("match self {") or not body.endswith("}"):
+        raise Fail("pool.rs: as_constant_value is not one `match self { … }`")
+    km = re.search(r"pub\(crate\) mod pool \{", consts_src)
+    if not km:
+        raise Fail("class_constants.rs: no `mod pool`")
+    kb = consts_src.index("{", km.end() - 1)
+    pool_consts = consts_src[kb:match_close(consts_src, kb)]
+    nested = pool_consts.find("mod ", 1)
+    if nested > 0:
+        pool_consts = pool_consts[:nested]
+    if np.count("fn as_string(&self, pool: &PoolRead) -> Result<JavaString> { let PoolEntry::String { string_index } = *self else { bail!(\"pool entry not `String`: {self:?}\"); }; pool.get_utf8(string_index) }") != 1:
+        raise Fail("pool.rs: fn as_string has another body than the one the model follows (the Utf8 entry at string_index)")
+    rows, rest = [], body[len("match self {"):-1].strip()
+    for am in re.finditer(r"PoolEntry::(\w+) \{ \.\. \} => Ok\(ConstantValue::(\w+)\(self\.as_(\w+)\((pool)?\)\?\)\),", rest):
+        entry, variant, conv, with_pool = am.groups()
+        if entry != variant or conv != entry.lower():
+            raise Fail("pool.rs: as_constant_value maps PoolEntry::%s to ConstantValue::%s through as_%s" % (entry, variant, conv))
+        is_string = entry == "String"
+        if is_string != bool(with_pool):
+            raise Fail("pool.rs: as_constant_value: as_%s is called %s the pool" % (conv, "with" if with_pool else "without"))
+        # the tag: the arm of PoolRead::read that builds this variant
+        tm = re.findall(r"pool::(\w+) => \{[^{}]*PoolEntry::%s \{" % entry, pool_src)
+        if len(tm) != 1:
+            raise Fail("pool.rs: expected one arm of PoolRead::read that builds PoolEntry::%s, found %d" % (entry, len(tm)))
+        cm = re.findall(r"pub\(crate\) const %s: u8 = (\d+);" % tm[0], pool_consts)
+        if len(cm) != 1:
+            raise Fail("class_constants.rs: pool::%s not found" % tm[0])
+        rows.append((int(cm[0]), is_string, variant))
+    left = re.sub(r"PoolEntry::(\w+) \{ \.\. \} => Ok\(ConstantValue::(\w+)\(self\.as_(\w+)\((pool)?\)\?\)\),", "", rest).strip()
+    if not rows or not re.fullmatch(r"_ => bail!\([^;]*\),?", left):
+        raise Fail("pool.rs: as_constant_value has an arm the translator does not know: %s" % left[:160])
+    if len(set(t for t, _, _ in rows)) != len(rows):
+        raise Fail("pool.rs: as_constant_value: a pool tag occurs twice")
+    return rows
+
+
+def module_sections(cr, fns, kind, flag_mask, struct_fields):
+    """the Module arm and read_module -> [(text of the msec, comment)]"""
+    ncr = norm(cr)
+    arm = "name if name == attribute::MODULE => { let module = read_module(reader, pool)?; class_visitor.visit_module(module)?; }"
+    if ncr.count(arm) != 1 or ncr.count("name if name == attribute::MODULE =>") != 1 or ncr.count("read_module(") != 2:
+        raise Fail("the Module arm has a shape the translator does not know (expected once: %s)" % arm)
+    body = fns.get("read_module", "")
+    if not body.startswith("{ Ok(Module { ") or not body.endswith(" }) }"):
+        raise Fail("read_module is not `Ok(Module { … })`")
+
+    def scalar(struct, field, expr):
+        m = re.fullmatch(r"pool\.get_(\w+)\((?:r|reader)\.read_u16\(\)\?\)\??", expr)
+        if m:
+            if m.group(1) not in kind:
+                raise Fail("read_module uses the accessor get_%s, which the translator does not know" % m.group(1))
+            return "CIdx %d" % kind[m.group(1)]
+        m = re.fullmatch(r"pool\.get_optional\((?:r|reader)\.read_u16\(\)\?, PoolRead::get_(\w+)\)\?", expr)
+        if m:
+            if m.group(1) not in kind:
+                raise Fail("read_module uses the accessor get_%s, which the translator does not know" % m.group(1))
+            return "COpt %d" % kind[m.group(1)]
+        if re.fullmatch(r"(?:r|reader)\.read_u16\(\)\?\.into\(\)", expr):
+            ty = struct_fields.get(struct, {}).get(field)
+            if not ty:
+                raise Fail("tree/module.rs: no type for the field %s.%s" % (struct, field))
+            return "CFlags %d" % flag_mask(ty)
+        return None
+
+    def vec(expr):
+        m = re.fullmatch(r"(?:r|reader)\.read_vec\( \|r\| r\.read_u16_as_usize\(\), \|r\| (.*) \)\?", expr)
+        return m.group(1) if m else None
+
+    def fields(text):
+        out = []
+        for piece in split_top(text):
+            m = re.fullmatch(r"(\w+): (.*)", piece)
+            if not m:
+                raise Fail("read_module: `%s` is not `field: expression`" % piece[:80])
+            out.append((m.group(1), m.group(2)))
+        return out
+
+    secs, head, seen_vec = [], [], False
+    for f, e in fields(body[len("{ Ok(Module { "):-len(" }) }")]):
+        c = scalar("Module", f, e)
+        if c is not None:
+            if seen_vec:
+                raise Fail("read_module: the field %s is read after a vector; the model knows leading fields only" % f)
+            head.append(c)
+            continue
+        elem = vec(e)
+        if elem is None:
+            raise Fail("read_module: the field %s is read by an expression the translator does not know: %s" % (f, e[:120]))
+        if not seen_vec:
+            if not head:
+                raise Fail("read_module: no leading fields")
+            secs.append(("MRow [%s]" % "; ".join(head), "name, flags, version"))
+            seen_vec = True
+        c = scalar(None, None, elem)
+        if c is not None:
+            secs.append(("MVec [%s] None" % c, f))
+            continue
+        m = re.fullmatch(r"Ok\((\w+) \{ (.*) \}\)", elem)
+        if not m:
+            raise Fail("read_module: the rows of %s are read by an expression the translator does not know: %s" % (f, elem[:120]))
+        cols, inner = [], None
+        for g, x in fields(m.group(2)):
+            if inner is not None:
+                raise Fail("read_module: %s.%s is read after the nested vector" % (m.group(1), g))
+            c = scalar(m.group(1), g, x)
+            if c is not None:
+                cols.append(c)
+                continue
+            ie = vec(x)
+            c = scalar(None, None, ie) if ie is not None else None
+            if c is None or not c.startswith("CIdx"):
+                raise Fail("read_module: %s.%s is read by an expression the translator does not know: %s" % (m.group(1), g, x[:120]))
+            inner = c
+        if not cols:
+            raise Fail("read_module: the rows of %s have no columns" % f)
+        secs.append(("MVec [%s] %s" % ("; ".join(cols), "(Some (%s))" % inner if inner else "None"), f))
+    if not seen_vec:
+        raise Fail("read_module reads no vector")
+    n_reads = sum(body.count(x) for x in ("read_u8", "read_u32", "read_u64", "read_i", "read_n"))
+    if n_reads:
+        raise Fail("read_module reads something other than u16")
+    return secs
+
+
 def gstr(s):
     return "[" + ";".join(str(ord(c)) for c in s) + "]"
 
@@ -323,9 +478,12 @@ def generate():
     idx_attrs.append("SourceFile")
 
     # attributes that are rows of pool indices and flags: the reads of the arm in source order
-    KIND = {"class": 7, "utf8": 1, "package": 20, "method_name_and_type": 12}
+    KIND = {"class": 7, "utf8": 1, "package": 20, "method_name_and_type": 12, "module": 19}
     tree_src = {"InnerClassFlags": strip_comments(open(os.path.join(REPO, "duke/src/tree/class.rs")).read()),
                 "ParameterFlags": strip_comments(open(os.path.join(REPO, "duke/src/tree/method.rs")).read())}
+    module_src = strip_comments(open(os.path.join(REPO, "duke/src/tree/module.rs")).read())
+    for ty in ("ModuleFlags", "ModuleRequiresFlags", "ModuleExportsFlags", "ModuleOpensFlags"):
+        tree_src[ty] = module_src
 
     def flag_mask(ty):
         m = re.search(r"impl From<u16> for %s \{" % ty, tree_src[ty])
@@ -388,8 +546,17 @@ def generate():
 
     targets, path_kinds = type_annotation_tables(cr, fns)
 
+    # ConstantValue and Module
+    consts_src = strip_comments(open(os.path.join(REPO, "duke/src/class_constants.rs")).read())
+    cv_rows = constant_value_table(cr, pool_src, consts_src)
+    struct_fields = {}
+    for sm in re.finditer(r"pub struct (\w+) \{", module_src):
+        sb = module_src.index("{", sm.end() - 1)
+        struct_fields[sm.group(1)] = dict(re.findall(r"(?:pub(?:\(crate\))? )?(\w+): ([\w<>]+),", module_src[sb:match_close(module_src, sb)]))
+    msecs = module_sections(cr, fns, KIND, flag_mask, struct_fields)
+
     L = ["(* GENERATED by translate/c17_values.py from duke/src/class_reader.rs and class_reader/pool.rs — do not edit. *)",
-         "From FB Require Import C17.Values.", "",
+         "From FB Require Import C17.Values C17.Values2.", "",
          "(* element_value: tag -> (tag of the pool entry the accessor demands, narrowing: 0 none, 1 low 8 bits, 2 low 16 bits, 3 != 0, 4 Utf8) *)",
          "Definition xtable_gen : xtable := mkXT",
          "  [%s]" % "; ".join("(%d, (%d, %d))" % (t, accessors[a][0], accessors[a][1]) for t, a, v in c1),
@@ -419,7 +586,17 @@ def generate():
          "(* read_type_path: type_path_kind -> does the entry carry an index (otherwise type_argument_index must be 0) *)",
          "Definition path_kinds_gen : list (N * bool) := [%s]." % "; ".join("(%d, %s)" % (k, "true" if b else "false") for k, b in path_kinds),
          "Definition vnames_gen : vnames := mkVN annotation_attrs_gen element_attr_gen index_attrs_gen layouts_gen",
-         "  type_annotation_attrs_gen (mkTY targets_gen path_kinds_gen).", ""]
+         "  type_annotation_attrs_gen (mkTY targets_gen path_kinds_gen).", "",
+         "(* ConstantValue (`pool.get_constant_value`, the arms of `as_constant_value`): tag of the pool entry -> handed over as a string",
+         "   (through string_index) / as the bits of the number; any other entry is refused *)",
+         "Definition constant_value_gen : cvtable := [%s]." % "; ".join("(%d, %s)" % (t, "true" if st else "false") for t, st, _ in cv_rows),
+         "(* " + "; ".join("%d=%s" % (t, v) for t, _, v in cv_rows) + " *)",
+         "(* Module (`read_module`): the leading fields, then the vectors in source order; columns as in layouts_gen (19 = Module entry);",
+         "   Some c: every row ends in a nested vector (u16 count) of indices read by the accessor of c *)",
+         "Definition module_secs_gen : list msec := [",
+         ";\n".join("  %s  (* %s *)" % (t, c) for t, c in msecs).replace(" *);", " *)\n  ;").replace("\n  ;\n", ";\n"),
+         "].",
+         "Definition vnames2_gen : vnames2 := mkVN2 %s constant_value_gen %s module_secs_gen." % (gstr("ConstantValue"), gstr("Module")), ""]
     text = "\n".join(L)
     path = os.path.join(COQ, "C17", "ValuesGen.v")
     old = open(path).read() if os.path.exists(path) else None
